@@ -316,6 +316,11 @@ func postfixOps() []postfix {
 		Num("0"), Num("1"), Num("2"), Num("5"), Un("-", Num("1")), Num("1.5"), Num("1e0"),
 		Str("a"), Str("1"), Str("zz"), Null(), Bool(true), Var("n"), Var("sa"), Str("d"),
 		Tmpl(TQuoted, TInterp(Var("sa"), false, false)), Tmpl(TQuoted, TLit("z"), TInterp(Var("sa"), false, false)),
+		// template keys that END in literal text after a sequence (a key that is not a constant
+		// although its last part is one): "az" names nothing, the other two spell "a"
+		Tmpl(TQuoted, TInterp(Var("sa"), false, false), TLit("z")),
+		Tmpl(TQuoted, TInterp(Str(""), false, false), TLit("a")),
+		Tmpl(TQuoted, TIf(Var("b"), false, false), TEndIf(false, false), TLit("a")),
 	}
 	for _, k := range keys {
 		k := k
@@ -344,7 +349,7 @@ func postfixOps() []postfix {
 }
 
 func famAccess(depth int) Family {
-	return Family{Name: "access", Bound: "16 collection/scalar bases x all chains of <= " + itoa(depth) + " postfix operations out of 41 (17 index keys, 6 attributes, 12 full splats, 6 attribute-only splats)",
+	return Family{Name: "access", Bound: "16 collection/scalar bases x all chains of <= " + itoa(depth) + " postfix operations out of 44 (20 index keys, 6 attributes, 12 full splats, 6 attribute-only splats)",
 		Gen: func(yield func(*Node)) {
 			ops := postfixOps()
 			var rec func(n *Node, d int)
